@@ -481,7 +481,7 @@ def bounded_drift(tier, seed):
                'str / list / set selections', 'seeded random; every case non-trivial (non-zero drift); distinct by seed')
     rng = np.random.default_rng(seed + 1313)
     for c in range(n):
-        inp = {'seed': int(rng.integers(1, 10 ** 6)), 'species_cls': ['Element', 'Species'][c % 2]}
+        inp = {'seed': int(rng.integers(1, 10 ** 6)), 'species_cls': ['Element', 'Species', 'SpeciesOx'][c % 3]}
         r = st.guard(replay_drift, inp)
         if r is None:
             continue
